@@ -116,7 +116,7 @@ func classify(err error) string {
 		for _, c := range []struct {
 			e syscall.Errno
 			n string
-		}{{syscall.EEXIST, "EEXIST"}, {syscall.ENOENT, "ENOENT"}, {syscall.ENOTDIR, "ENOTDIR"}, {syscall.EISDIR, "EISDIR"}, {syscall.EINVAL, "EINVAL"}} {
+		}{{syscall.EEXIST, "EEXIST"}, {syscall.ENOENT, "ENOENT"}, {syscall.ENOTDIR, "ENOTDIR"}, {syscall.EISDIR, "EISDIR"}, {syscall.EINVAL, "EINVAL"}, {syscall.ELOOP, "ELOOP"}} {
 			if errors.Is(pe.Err, c.e) {
 				name = c.n
 			}
@@ -663,6 +663,156 @@ func cliOracle(c ccase, r cresult) []string {
 		bad = append(bad, "cli/file-missing")
 	}
 	return bad
+}
+
+// ------------------------------------------------------------------ symbolic links (out of scope)
+
+type lobj struct {
+	kind string // D, F, L
+	data []byte // contents or link target
+}
+
+func lsnapshot(root string) map[string]lobj {
+	m := map[string]lobj{}
+	filepath.Walk(root, func(p string, info os.FileInfo, err error) error {
+		if err != nil || p == root {
+			return nil
+		}
+		rel, _ := filepath.Rel(root, p)
+		switch {
+		case info.Mode()&os.ModeSymlink != 0:
+			t, _ := os.Readlink(p)
+			m[rel] = lobj{"L", []byte(t)}
+		case info.IsDir():
+			m[rel] = lobj{"D", nil}
+		default:
+			b, _ := os.ReadFile(p)
+			m[rel] = lobj{"F", b}
+		}
+		return nil
+	})
+	return m
+}
+
+func lfs(snap map[string]lobj, root string) (n int, parts []string) {
+	var keys []string
+	for k := range snap {
+		keys = append(keys, k)
+	}
+	sort.Strings(keys)
+	parts = append(parts, common.Hex([]byte(modelRoot)), "D", "-")
+	for _, k := range keys {
+		o := snap[k]
+		d := o.data
+		if o.kind == "L" && strings.HasPrefix(string(d), root) {
+			d = []byte(modelRoot + string(d[len(root):]))
+		}
+		if o.kind == "D" {
+			parts = append(parts, common.Hex([]byte(modelRoot+"/"+k)), "D", "-")
+		} else {
+			parts = append(parts, common.Hex([]byte(modelRoot+"/"+k)), o.kind, common.Hex(d))
+		}
+	}
+	return len(keys) + 1, parts
+}
+
+// symlinkCases: the target directory contains symbolic links.  This is outside the scope
+// of the property ("pre-existing files"); the cases document what the real code does
+// (os.MkdirAll / os.OpenFile follow links in directory components, so an entry "link/x"
+// creates a file where the link points) and tie the symlink variant of the model
+// (Symlink.v, about which the refutation of containment is proved) to the code.  An escape
+// is counted and noted, never reported as a violation.
+func (rn *runner) symlinkCases() {
+	res := rn.res
+	entriesList := [][]entry{
+		{{"link/x", []byte("DATA")}},
+		{{"abs/sub/y", []byte("D2")}},
+		{{"dangling/z", []byte("Z")}},
+		{{"dangling", []byte("Z")}},
+		{{"lf", []byte("X")}},
+		{{"lf/x", []byte("X")}},
+		{{"link", []byte("X")}},
+		{{"loop/x", []byte("X")}},
+		{{"loop", []byte("X")}},
+		{{"ok/f", []byte("fine")}, {"link/../t2", []byte("lexical")}, {"link/x", []byte("DATA")}, {"link/x", []byte("again")}},
+		{{"in/f", []byte("inside")}},
+		{{"in/../up", []byte("u")}},
+		{{"chain/q", []byte("Q")}},
+		{{"dangling2", []byte("through a dangling link that points outside")}},
+	}
+	escapes := 0
+	for i, es := range entriesList {
+		for form := 0; form < 2; form++ {
+			caseSeq++
+			root := filepath.Join(rn.f.Work, fmt.Sprintf("s%d", caseSeq))
+			os.MkdirAll(filepath.Join(root, "parent/target/real"), 0o777)
+			os.MkdirAll(filepath.Join(root, "parent/out"), 0o777)
+			os.WriteFile(filepath.Join(root, "parent/sib"), []byte("sibling"), 0o666)
+			t := filepath.Join(root, "parent/target")
+			os.Symlink("../out", filepath.Join(t, "link"))
+			os.Symlink(filepath.Join(root, "parent/out"), filepath.Join(t, "abs"))
+			os.Symlink("nowhere", filepath.Join(t, "dangling"))
+			os.Symlink("../nowhere2", filepath.Join(t, "dangling2"))
+			os.Symlink("../sib", filepath.Join(t, "lf"))
+			os.Symlink("loop", filepath.Join(t, "loop"))
+			os.Symlink("real", filepath.Join(t, "in"))
+			os.Symlink("link", filepath.Join(t, "chain"))
+			before := lsnapshot(root)
+			a := &txtar.Archive{}
+			for _, e := range es {
+				a.Files = append(a.Files, txtar.File{Name: e.Name, Data: e.Data})
+			}
+			dir, mdir, mcwd := t, modelRoot+"/parent/target", modelRoot
+			var err error
+			if form == 1 {
+				old, _ := os.Getwd()
+				os.Chdir(filepath.Join(root, "parent"))
+				dir, mdir, mcwd = "target", "target", modelRoot+"/parent"
+				err = txtar.Write(a, dir)
+				os.Chdir(old)
+			} else {
+				err = txtar.Write(a, dir)
+			}
+			after := lsnapshot(root)
+			n, parts := lfs(before, root)
+			req := []string{"swrite", common.Hex([]byte(mcwd)), common.Hex([]byte(mdir)), fmt.Sprint(n)}
+			req = append(req, parts...)
+			req = append(req, fmt.Sprint(len(es)))
+			for _, e := range es {
+				req = append(req, common.Hex([]byte(e.Name)), common.Hex(e.Data))
+			}
+			want := rn.m.Ask1(strings.Join(req, " "))
+			n2, parts2 := lfs(after, root)
+			got := classify(err) + " " + fmt.Sprint(n2) + " " + strings.Join(parts2, " ")
+			res.Case(fmt.Sprintf("symlink:%d:%d", i, form), true)
+			res.Count("symlink:cases")
+			res.Count("symlink:result:" + classify(err))
+			in := map[string]string{"kind": "symlink", "entries_text": entriesInput(es)["entries_text"], "dirform": fmt.Sprint(form)}
+			if want != got {
+				res.Count("mismatch:swrite")
+				res.Violate(common.Violation{Kind: "correspondence", Oracle: "swrite", Input: in, Model: want, Impl: got,
+					Key: fmt.Sprintf("swrite:%d:%d", i, form), Detail: "symlink variant of the model and txtar.Write differ"})
+			}
+			for k, o := range after {
+				if _, old := before[k]; !old && !under(k, targetRel) {
+					escapes++
+					res.Count("symlink:object-created-outside-target")
+					if escapes == 1 {
+						res.Notes = append(res.Notes, fmt.Sprintf("out of scope, not a violation: with a pre-existing symbolic link %s/link -> ../out inside the target directory, txtar.Write of the entry %q created %s %s outside the target (os.MkdirAll/os.OpenFile follow links in directory components; proved for the model as symlink_containment_refuted)", targetRel, es[0].Name, o.kind, k))
+					}
+				}
+			}
+			// what does hold with links: nothing that existed was changed
+			for k, o := range before {
+				if n, ok := after[k]; !ok || n.kind != o.kind || !bytes.Equal(n.data, o.data) {
+					res.Violate(common.Violation{Kind: "impl-violation", Oracle: "write/never-overwrites", Input: in,
+						Impl: fmt.Sprintf("%s changed", k), Key: fmt.Sprintf("symlink-overwrite:%d:%d", i, form),
+						Detail: "an existing object changed in a sandbox whose target contains symbolic links"})
+				}
+			}
+			os.RemoveAll(root)
+		}
+	}
 }
 
 // ------------------------------------------------------------------ permission bits
@@ -1243,6 +1393,9 @@ func main() {
 	for i := 0; i < nRand; i++ {
 		rn.writeCase(wcase{Scenario: r.Intn(nScenarios), DirForm: r.Intn(nDirForms), Entries: genEntries(r)}, "random")
 	}
+
+	// 3b. symbolic links inside the target (out of scope: documented and tied to Symlink.v)
+	rn.symlinkCases()
 
 	// 4. txtar-c | txtar-x on generated trees
 	if cliOK {
